@@ -377,7 +377,7 @@ def _variants():
         V("unrank-shared-table", [insert_stmt(PE, "Perm", "ind2perm = unrank", "_FACTORIALS = [1, 1]", "after"), replace_stmt(PE, "Perm.unrank", "factorial = [1, 1]", "factorial = cls._FACTORIALS")], "undecided", "C09-H1"),
         V("mesh-rank-offset", replace_stmt(MP, "MeshPatt.rank", "n, res = (len(self), 0)", "n, res = (len(self), 1)"), "fire", "C09-B1"),
         V("mesh-unrank-drops-shading", replace_stmt(MP, "MeshPatt.unrank", "return cls(pattern, shading)", "return cls(pattern, [])"), "fire", "C09-B1"),
-        V("of-length-filtered", replace_expr(PE, "Perm.of_length", "(cls(perm) for perm in itertools.permutations(range(length)))", "(cls(perm) for perm in itertools.permutations(range(length)) if perm)"), "fire", "C09-G1"),
+        V("of-length-filtered", replace_expr(PE, "Perm.of_length", "(cls(perm) for perm in itertools.permutations(range(length)))", "(cls(perm) for perm in itertools.permutations(range(length)) if perm)"), "fire-or-undecided", "C09-G1", note="an added filter may be redundant: not decided"),
         V("of-length-reversed", replace_expr(PE, "Perm.of_length", "itertools.permutations(range(length))", "itertools.permutations(range(length - 1, -1, -1))"), "fire-or-undecided", "C09-G1", note="three arguments changed at once: beyond a point change"),
         V("up-to-length-exclusive", replace_expr(PE, "Perm.up_to_length", "range(length + 1)", "range(length)"), "fire", "C09-G1"),
         V("all-starts-at-1", replace_stmt(PE, "Perm._all", "length = 0", "length = 1"), "fire", "C09-G1"),
